@@ -249,7 +249,7 @@ class StmtMixin:
         outs_b = self.exec_block(s.orelse, b, fr) if s.orelse else [Outcome("normal", b)]
         normal = [o for o in outs_a + outs_b if o.kind == "normal"]
         rest = [o for o in outs_a + outs_b if o.kind != "normal"]
-        if len(normal) > 1:
+        if len(normal) > 1 and not (fr.contract is not None and getattr(fr.contract, "opts", {}).get("no_merge")):
             try:
                 merged, _ = self.merge_outcomes(st, normal)
                 return rest + [Outcome("normal", merged)]
